@@ -75,9 +75,16 @@ func registerJSON(e *Engine) {
 	prim("tokKind", func(th *Thread, fn *ssa.Function, a []Value) Value {
 		e := a[0].(Slice).a
 		if len(e) != 1 {
-			th.st.abort("tokKind of a non-token")
+			return mkBV(64, kInvalid)
 		}
-		return mkZext(th.tokKind(e[0].(*Token)), 64)
+		tk, ok := e[0].(*Token)
+		if !ok {
+			return mkBV(64, kInvalid)
+		}
+		if tk.kind >= 0 {
+			return mkBV(64, uint64(tk.kind))
+		}
+		return mkZext(th.tokKind(tk), 64)
 	})
 	prim("tokString", func(th *Thread, fn *ssa.Function, a []Value) Value {
 		return Slice{a: []Value{th.stringToken(a[0].(*StrVal))}}
